@@ -515,3 +515,85 @@ Proof.
   rewrite Hres. split; [exact Hz|].
   intros k h Hk. rewrite nth_zip by exact Hk. cbn [Nat.add]. now apply settled_shard_unchanged.
 Qed.
+
+(* ------------------------------------------------------------------ a scrape round *)
+(* every scrape of an assigned target adds exactly one to its counter and touches nothing else of the placement *)
+Lemma do_scrape_entry sc h r stopped h' :
+  afind h' (sc_status (do_scrape sc h r stopped)) =
+  match afind h' (sc_status sc) with
+  | Some e => Some (if N.eqb h h' then scrape_status e r stopped else e)
+  | None => None
+  end.
+Proof.
+  unfold do_scrape. destruct (afind h (sc_status sc)) as [st|] eqn:E.
+  - cbn [sc_status]. destruct (N.eqb_spec h h') as [<-|Hne]; [rewrite afind_aset_eq, E; reflexivity|].
+    rewrite afind_aset_neq by exact Hne. now destruct (afind h' (sc_status sc)).
+  - destruct (N.eqb_spec h h') as [<-|Hne]; [now rewrite E|]. now destruct (afind h' (sc_status sc)).
+Qed.
+
+Definition counts_of (sc : sidecar) (h : N) : option (N * tstate) :=
+  match afind h (sc_status sc) with Some e => Some (ss_times e, ss_state e) | None => None end.
+
+Lemma scrape_times_state e r stopped : ss_times (scrape_status e r stopped) = (ss_times e + 1)%N /\ ss_state (scrape_status e r stopped) = ss_state e.
+Proof. destruct r; cbn; auto. Qed.
+
+Lemma counts_do_scrape sc h r stopped h' :
+  counts_of (do_scrape sc h r stopped) h' =
+  match counts_of sc h' with Some (t, st) => Some (if N.eqb h h' then (t + 1)%N else t, st) | None => None end.
+Proof.
+  unfold counts_of. rewrite do_scrape_entry. destruct (afind h' (sc_status sc)) as [e|]; [|reflexivity].
+  destruct (N.eqb h h'); [|reflexivity]. destruct (scrape_times_state e r stopped) as [-> ->]. reflexivity.
+Qed.
+
+Lemma repeat_scrape_counts h r n : forall a sc h',
+  counts_of (fold_left (fun sc0 (_ : nat) => do_scrape sc0 h r false) (seq a n) sc) h' =
+  match counts_of sc h' with
+  | Some (t, st) => Some (if N.eqb h h' then (t + N.of_nat n)%N else t, st)
+  | None => None
+  end.
+Proof.
+  induction n as [|n IH]; intros a sc h'; cbn [seq fold_left].
+  - destruct (counts_of sc h') as [[t st]|]; [|reflexivity]. destruct (N.eqb h h'); [f_equal; f_equal; lia|reflexivity].
+  - rewrite IH, counts_do_scrape. destruct (counts_of sc h') as [[t st]|]; [|reflexivity].
+    destruct (N.eqb h h'); [f_equal; f_equal; lia|reflexivity].
+Qed.
+
+Lemma scrape_all_counts tru n : forall (l : list (N * sstat)) sc h', NoDup (map fst l) ->
+  counts_of (fold_left (fun sc kv =>
+     let t := truth_of tru (fst kv) in
+     let r := if tr_healthy t then ScrOk (tr_series t) (tr_total t) else ScrFail in
+     fold_left (fun sc _ => do_scrape sc (fst kv) r false) (seq 0 n) sc) l sc) h' =
+  match counts_of sc h' with
+  | Some (t, st) => Some (if existsb (N.eqb h') (map fst l) then (t + N.of_nat n)%N else t, st)
+  | None => None
+  end.
+Proof.
+  induction l as [|[h e] r IH]; intros sc h' Hnd; cbn [fold_left map fst existsb].
+  - now destruct (counts_of sc h') as [[t st]|].
+  - cbn [map fst] in Hnd. apply NoDup_cons_iff in Hnd. destruct Hnd as [Hn Hr].
+    rewrite IH by exact Hr. rewrite (repeat_scrape_counts h _ n 0%nat).
+    destruct (counts_of sc h') as [[t st]|]; [|reflexivity].
+    destruct (N.eqb_spec h h') as [<-|Hne].
+    + rewrite N.eqb_refl. cbn [orb].
+      assert (Hf : existsb (N.eqb h) (map fst r) = false).
+      { apply not_true_iff_false. intros Hex. apply existsb_exists in Hex. destruct Hex as [x [Hin Hx]]. apply N.eqb_eq in Hx. subst x. contradiction. }
+      now rewrite Hf.
+    + assert (Hf : N.eqb h' h = false) by (apply N.eqb_neq; congruence). rewrite Hf. reflexivity.
+Qed.
+
+(* a round of n scrapes of everything a (well-formed) sidecar is assigned: every counter grows by n, no state changes *)
+Theorem scrape_round_counts tru n s h e : wf (ws_sc s) -> afind h (sc_status (ws_sc s)) = Some e ->
+  exists e', afind h (sc_status (ws_sc (scrape_shard tru n s))) = Some e' /\
+             ss_times e' = (ss_times e + N.of_nat n)%N /\ ss_state e' = ss_state e.
+Proof.
+  intros Hw Hf. unfold scrape_shard. cbn [ws_sc].
+  assert (Hnd : NoDup (map fst (sc_status (ws_sc s)))).
+  { change (map fst (sc_status (ws_sc s))) with (akeys (sc_status (ws_sc s))). rewrite (wf_keys _ Hw). apply (wf_nodup _ Hw). }
+  pose proof (scrape_all_counts tru n (sc_status (ws_sc s)) (ws_sc s) h Hnd) as Hc.
+  unfold counts_of in Hc at 2. rewrite Hf in Hc.
+  assert (Hin : existsb (N.eqb h) (map fst (sc_status (ws_sc s))) = true).
+  { apply existsb_exists. exists h. split; [|apply N.eqb_refl]. change (In h (akeys (sc_status (ws_sc s)))). apply afind_some_keys. eauto. }
+  rewrite Hin in Hc. unfold counts_of in Hc.
+  destruct (afind h (sc_status (fold_left _ (sc_status (ws_sc s)) (ws_sc s)))) as [e'|]; [|discriminate].
+  injection Hc as Ht Hs. exists e'. auto.
+Qed.
